@@ -383,3 +383,55 @@ pub proof fn lemma_lst_unstaked(s0: StoreView, env: Env, info: MessageInfo, batc
     assert(s0.batches[batch_id].id == batch_id);
 }
 } // verus!
+
+verus! {
+// ------------------------------------------------------------------ C06 / C16: what each batch status implies about the record
+/// a Submitted batch has its expected amount and its unbonding deadline, a Received batch has the received amount
+/// (this is what lets Withdraw and ReceiveUnstakedTokens unwrap those fields)
+pub open spec fn inv_status(s: StoreView) -> bool {
+    forall|k: u64| #[trigger] s.batches.dom().contains(k) ==> {
+        &&& s.batches[k].status == BatchStatus::Submitted ==> s.batches[k].expected_native_unstaked is Some && s.batches[k].next_batch_action_time is Some
+        &&& s.batches[k].status == BatchStatus::Received ==> s.batches[k].received_native_unstaked is Some
+    }
+}
+// [C06.status-fields-submit] [C16.status-fields-submit]
+pub proof fn lemma_status_submit(s0: StoreView, env: Env, s1: StoreView, ms: Seq<SubMsg>)
+    requires invb(s0), inv_status(s0), step_submit(s0, env, s1, ms), s0.pending_batch_id->Some_0 < u64::MAX,
+    ensures inv_status(s1),
+{
+    let p = s0.pending_batch_id->Some_0;
+    assert(s0.batches[p].id == p);
+    assert forall|k: u64| #[trigger] s1.batches.dom().contains(k) implies {
+        &&& s1.batches[k].status == BatchStatus::Submitted ==> s1.batches[k].expected_native_unstaked is Some && s1.batches[k].next_batch_action_time is Some
+        &&& s1.batches[k].status == BatchStatus::Received ==> s1.batches[k].received_native_unstaked is Some
+    } by {
+        if k != p && k != (p + 1) as u64 { assert(s0.batches.dom().contains(k)); }
+    }
+}
+// [C06.status-fields-unstake] [C16.status-fields-unstake]
+pub proof fn lemma_status_unstake(s0: StoreView, info: MessageInfo, amount: nat, s1: StoreView, ms: Seq<SubMsg>)
+    requires invb(s0), inv_status(s0), step_unstake(s0, info, amount, s1, ms),
+    ensures inv_status(s1),
+{
+    let p = s0.pending_batch_id->Some_0;
+    assert forall|k: u64| #[trigger] s1.batches.dom().contains(k) implies {
+        &&& s1.batches[k].status == BatchStatus::Submitted ==> s1.batches[k].expected_native_unstaked is Some && s1.batches[k].next_batch_action_time is Some
+        &&& s1.batches[k].status == BatchStatus::Received ==> s1.batches[k].received_native_unstaked is Some
+    } by {
+        assert(s0.batches.dom().contains(k));
+    }
+}
+// [C06.status-fields-unstaked] [C16.status-fields-unstaked]
+pub proof fn lemma_status_unstaked(s0: StoreView, env: Env, info: MessageInfo, batch_id: u64, s1: StoreView, ms: Seq<SubMsg>)
+    requires invb(s0), inv_status(s0), step_unstaked(s0, env, info, batch_id, s1, ms),
+    ensures inv_status(s1),
+{
+    assert(s0.batches[batch_id].id == batch_id);
+    assert forall|k: u64| #[trigger] s1.batches.dom().contains(k) implies {
+        &&& s1.batches[k].status == BatchStatus::Submitted ==> s1.batches[k].expected_native_unstaked is Some && s1.batches[k].next_batch_action_time is Some
+        &&& s1.batches[k].status == BatchStatus::Received ==> s1.batches[k].received_native_unstaked is Some
+    } by {
+        assert(s0.batches.dom().contains(k));
+    }
+}
+} // verus!
